@@ -104,6 +104,8 @@ def case(ctx):
     spec, info = G.random_shape(rng, kind, num, curved, center, rng.choice([1.0, 5.0, 10.0]))
     if kind in "SU" and curved and rng.random() < 0.5:
         spec, info = G.random_blob(rng, center, 8.0, degree=rng.choice([2, 3]), cw=(kind == "U"), mixed=rng.random() < 0.4)
+    if kind in "SU" and curved and rng.random() < 0.12:
+        spec, info = G.random_teardrop(rng, (round(center[0]), round(center[1])), 8.0, cw=(kind == "U"))
     bigden = False
     if spec["t"] == "poly" and spec["num"] in ("int", "frac") and rng.random() < 0.3:
         # large denominators: every coordinate perturbed by k/den (K-cap stratum)
